@@ -41,6 +41,9 @@ CLAIMED["C09"]=("Bounded symbolic execution of the real evalObj / evalMap / NewI
 CLAIMED["C04"]=("Bounded symbolic execution of the real chain middlewares (list / strict / thoughtful / lonely / reduce, property-call and literal-call variants), evalPropCall / evalLiteralCall / evalVarCall and iterOf through parsed programs: arrays of 1..2 (thorough 1..3) elements whose payloads are symbolic so that the callee's value / nil / raise outcome at each position is decided by the solver; on every feasible path z3 discharges the documented per-element rule of each of 11 chain contexts and the pairwise agreement of the three call forms.",
         TRUST,
         "SMT-decided bounded symbolic execution of go/ssa (z3, bit-vectors); callee behaviour decided by symbolic data")
+CLAIMED["C03"]=("Bounded symbolic execution of the real evalPanFuncCall / assignArgsToEnv / paddedArgs / evalArgs / evalKwargs / evalFuncMethodCall / extractAnonChainRecv / evalAssign and Env operations through parsed programs: (a) all 12 parameter signatures against every solver-chosen argument layout (count, * unpacking, keyword positions, ** unpacking) with a closed-form binding oracle including \\0, \\_, \\N, \\ and \\name; (b) 14 scoping scenarios with symbolic int inputs whose expected values are closed-form, plus the check that the enclosing scope is unchanged afterwards.",
+        TRUST,
+        "SMT-decided bounded symbolic execution of go/ssa (z3); argument layouts enumerated by solver-decided choices")
 NA={
 }
 DEFAULT_NA="check under construction in this session (engine exists; harness not yet registered)"
